@@ -257,6 +257,28 @@ def run_cli(spec):
             sh.count("c08.exit_status_same_in_both_formats")
             if len(set(o.rc == 0 for o in outs.values())) != 1:
                 sh.violation("exit_status_depends_on_format", ("cli",), case, {k2: o.rc for k2, o in outs.items()})
+            # the same ASCII files below a directory whose name is not ASCII (valid UTF-8, and bytes that are not
+            # UTF-8 at all), with the standard streams in several encodings: both reports stay parsable and equal
+            plain = [n for n in dict.fromkeys(os.path.basename(x) for x in names) if texts[n].isascii()]
+            if k % 2 == 0 and plain:
+                dname = [b"caf\xc3\xa9 \xe6\x97\xa5", b"caf\xe9", b"\xff\xfe dir"][(k // 2) % 3]
+                bd = os.path.join(os.fsencode(d), dname)
+                os.mkdir(bd)
+                for n in plain:
+                    with open(os.path.join(bd, os.fsencode(n)), "w", encoding="utf-8") as f:
+                        f.write(texts[n])
+                for envx in ({}, {"PYTHONIOENCODING": "ascii"}, {"PYTHONIOENCODING": "latin-1"}, {"LC_ALL": "C", "PYTHONUTF8": "0", "PYTHONCOERCECLOCALE": "0"}):
+                    rh2 = cliobs.run_cli(["-f", "humanized", "--no-colors"] + plain, cwd=bd, trace=False, env_extra=envx)
+                    rj2 = cliobs.run_cli(["-f", "json"] + plain, cwd=bd, trace=False, env_extra=envx)
+                    case2 = {"mode": "cli_dir", "files": {n: texts[n] for n in plain}, "argv_names": plain, "dir_hex": dname.hex(), "env": envx}
+                    sh.case("clidir\0" + dname.hex() + repr(sorted(envx.items())) + "\0".join(texts[n] for n in plain))
+                    sh.tally("files", "cli_lists_in_non_ascii_directory")
+                    sh.count("c08.formats_agree_in_a_non_ascii_directory")
+                    if rh2.timeout or rj2.timeout or rh2.traceback() or rj2.traceback():
+                        sh.violation("cli_failed", ("non_ascii_directory", " ".join(sorted(envx))), case2,
+                                     {"stderr": (rh2.stderr + rj2.stderr)[-300:]})
+                        continue
+                    compare_reports(sh, rh2.stdout, rj2.stdout, case2, "cli_dir")
             shutil.rmtree(d, ignore_errors=True)
         sh.sample({"cli_argv": "-f json f0.c f1.h ...  vs  -f humanized --no-colors f0.c f1.h ..."}, cap=1)
     finally:
@@ -415,6 +437,23 @@ def replay(case, sh):
             b = mk(case["b"]) if "b" in case else a
             if (a < b and b < a) or ("b" not in case and a < a):
                 sh.violation("cmp_law", ("replay",), case, {})
+    elif case.get("mode") == "cli_dir":
+        tmp = tempfile.mkdtemp(prefix="nv_c08r_")
+        try:
+            bd = os.path.join(os.fsencode(tmp), bytes.fromhex(case["dir_hex"]))
+            os.mkdir(bd)
+            for n, t in case["files"].items():
+                with open(os.path.join(bd, os.fsencode(n)), "w", encoding="utf-8") as f:
+                    f.write(t)
+            names = list(case["argv_names"])
+            rh = cliobs.run_cli(["-f", "humanized", "--no-colors"] + names, cwd=bd, trace=False, env_extra=case.get("env") or {})
+            rj = cliobs.run_cli(["-f", "json"] + names, cwd=bd, trace=False, env_extra=case.get("env") or {})
+            if rh.traceback() or rj.traceback():
+                sh.violation("cli_failed", ("replay",), case, {"stderr": (rh.stderr + rj.stderr)[-300:]})
+            else:
+                compare_reports(sh, rh.stdout, rj.stdout, case, "cli_dir")
+        finally:
+            shutil.rmtree(tmp, ignore_errors=True)
     elif case.get("mode") == "cli":
         tmp = tempfile.mkdtemp(prefix="nv_c08r_")
         try:
